@@ -100,6 +100,16 @@ def run(ctx):
         if k % 4 == 2:
             d.ds = gen.fortran_layout(d.ds)
             ctx.count('memory_layout:column-major')
+        if k % 3 == 0 and d.family in ('cf1d', 'cf2d'):
+            # bound by the user, who names the coordinate variables: CFGrid1D(dataset, latitude=..., longitude=...).bind()
+            from emsarray.conventions.grid import CFGrid1D, CFGrid2D
+            d.ds = d.ds.copy()
+            r = attempt(lambda: {'cf1d': CFGrid1D, 'cf2d': CFGrid2D}[d.family](
+                d.ds, latitude=d.spec['latname'], longitude=d.spec['lonname']).bind())
+            if r[0] != 'ok':
+                ctx.report('property', f'binding a CF grid with its coordinate variables named fails: {r[1]}',
+                           {'dataset': d.spec['label'], 'latitude': d.spec['latname'], 'longitude': d.spec['lonname']})
+            ctx.count('bound_by_hand:coordinate names given')
     exprs = []
     plans = []
     for d in datasets:
